@@ -532,6 +532,49 @@ def check_scheme(ctx, lib, c):
     expect(outs[0] == outs[1], "capi-vs-cpp/lqibe/hash-input", "LQ-IBE through the C API and through C++ hash different bytes")
 
 
+# ---- object-less wrappers of wkdibe.h / lqibe.h: samplers, hash reduction, length functions --------------------------------
+@st.composite
+def misc_cases(draw):
+    what = draw(st.sampled_from(("hash_reduce", "zpstar", "random_g1", "random_g2", "random_gt", "fixed_length", "length_formula")))
+    c = {"what": what, "stream": draw(st.binary(min_size=0, max_size=64)), "seed": draw(st.integers(0, 2**32))}
+    if what == "hash_reduce":
+        c["v"] = draw(gens.scalars(256))[1]
+    elif what == "fixed_length":
+        c["kind"], c["comp"] = draw(st.sampled_from((1, 3, 4))), draw(st.booleans())
+    elif what == "length_formula":
+        c["kind"], c["comp"], c["sigs"], c["l"] = draw(st.sampled_from((0, 2))), draw(st.booleans()), draw(st.booleans()), draw(st.integers(0, 300))
+    return c
+
+
+def check_misc(ctx, lib, c):
+    what = c["what"]
+    d = lib.dll
+    outs = []
+    for cpp in (0, 1):
+        d.vf_set_use_cpp(cpp)
+        try:
+            if what in ("fixed_length", "length_formula"):
+                if what == "fixed_length":
+                    f = lib.fn("vf_wk_fixed_length", ctypes.c_long, [ctypes.c_int, ctypes.c_int])
+                    outs.append(f(c["kind"], 1 if c["comp"] else 0))
+                else:
+                    f = lib.fn("vf_wk_length_formula", ctypes.c_long, [ctypes.c_int, ctypes.c_int, ctypes.c_int, ctypes.c_int])
+                    outs.append(f(c["kind"], c["l"], 1 if c["sigs"] else 0, 1 if c["comp"] else 0))
+                continue
+            idx = ("hash_reduce", "zpstar", "random_g1", "random_g2", "random_gt").index(what)
+            size = (32, 32, lib.sizeof("G1"), lib.sizeof("G2"), 576)[idx]
+            lib.set_random(c["stream"], c["seed"])
+            lib.O.fill(0xCD, size)
+            if what == "hash_reduce":
+                lib.O.write(conv.bi(c["v"], 256))
+            lib.fn("vf_wk_misc", None, [ctypes.c_int, ctypes.c_void_p])(idx, lib.O.ptr)
+            outs.append((lib.O.read(size), lib.rand_requested()))
+        finally:
+            d.vf_set_use_cpp(0)
+    ctx.count(c, True, "misc-" + what)
+    expect(outs[0] == outs[1], "capi-vs-cpp/wkdibe/" + what, lambda: "C wrapper and C++ function differ (output bytes or random bytes consumed) for %s" % what)
+
+
 # ---- marshalling wrappers: the same synthetic object / corrupted buffer through the C symbols and through the C++ functions ----
 def marshal_cases():
     from . import c15
@@ -575,4 +618,5 @@ SUBCHECKS = [
     Sub("bls", bls_cases(), check_bls, 16000, 150000, ("asm",), ("asm", "asm:base", "p64", "p32")),
     Sub("schemes", scheme_cases(), check_scheme, 1200, 20000, ("asm",), ("asm", "p32")),
     Sub("marshal", marshal_cases(), check_marshal, 12000, 150000, ("asm",), ("asm", "p32")),
+    Sub("misc", misc_cases(), check_misc, 4000, 60000, ("asm",), ("asm", "p32")),
 ]
